@@ -232,6 +232,11 @@ def _reuse_programs(tier: str):
     for e1 in ("return", "raise"):
         for e2 in ("return", "raise"):
             yield {"reuse": [{"ending": e1}, {"ending": e2}], "cancels": 0, "two_worlds": True}
+    # consecutive scopes, each with its OWN disposables that compare equal to the previous scope's
+    for u1 in _REUSE_SMALL:
+        for u2 in _REUSE_SMALL:
+            yield {"reuse": [u1, u2], "cancels": 0, "fresh_equal": True}
+            yield {"reuse": [u1, u2, _REUSE_SMALL[0]], "cancels": 0, "fresh_equal": True}
     for u1 in _REUSE_SMALL:
         for u2 in _REUSE_SMALL:
             for u3 in _REUSE_SMALL:
@@ -352,6 +357,13 @@ def _reuse(program, ch: Chooser) -> Result:  # noqa: C901, PLR0912, PLR0915
                 self.errors[u] = _ReuseErr(f"u{u}.{self.name}.exit")
                 raise self.errors[u]
 
+    fresh = bool(program.get("fresh_equal"))
+    if fresh:
+        # every use gets its OWN pair of disposables - distinct objects that compare (and hash)
+        # equal to the pair of the use before (value-semantics resources, e.g. a pool per DSN)
+        D.__eq__ = lambda self, other: isinstance(other, D) and other.name == self.name  # type: ignore[method-assign]
+        D.__hash__ = lambda self: hash(("D", self.name))  # type: ignore[method-assign]
+    pairs = {u: (D("A"), D("B")) for u in range(len(uses))} if fresh else None
     a, b = D("A"), D("B")
     shared = Disposables(a, b)
     caught: dict[int, BaseException | None] = {}
@@ -363,7 +375,7 @@ def _reuse(program, ch: Chooser) -> Result:  # noqa: C901, PLR0912, PLR0915
             for u, spec in enumerate(uses):
                 cur[0] = u
                 try:
-                    async with ctx.scope(f"use{u}", disposables=shared):
+                    async with ctx.scope(f"use{u}", disposables=list(pairs[u]) if pairs else shared):
                         if spec["ending"] == "raise":
                             body_exc[u] = BodyErr(f"u{u}")
                             raise body_exc[u]
@@ -393,6 +405,8 @@ def _reuse(program, ch: Chooser) -> Result:  # noqa: C901, PLR0912, PLR0915
                 for p in range(u)
             )
             was_cancelled = u in cancelled_use
+            if pairs:
+                a, b = pairs[u]
             all_entered = a.enter_ok.get(u, False) and b.enter_ok.get(u, False)
             for d in (a, b):
                 if d.entered.get(u, 0) != 1 and not was_cancelled:
